@@ -272,7 +272,7 @@ def _table(rows, width, start_index, fill_mode, fill_value=-999):
 
 def ugrid(ny=2, nx=3, *, split=(), merge=(), start_index=0, fill='auto', transposed=False,
           tables=(), edge_dimension='auto', coords_as='vars', face_coords=False, time=2, extra=True,
-          jitter=0.0, two_name='Two', face_dimension_attr=True, edge_transposed=False, mesh=None, edge_order='first-seen'):
+          jitter=0.0, two_name='Two', face_dimension_attr=True, edge_transposed=False, mesh=None, edge_order='first-seen', depth=0):
     """tables: subset of {'edge_node','face_edge','edge_face','face_face'} to supply.
     fill: 'auto' (int with _FillValue when ragged, none otherwise) | 'nan' | 'int_fill'."""
     node_x, node_y, faces = mesh if mesh is not None else quad_tri_mesh(ny, nx, split=split, merge=merge, jitter=jitter)
@@ -329,7 +329,11 @@ def ugrid(ny=2, nx=3, *, split=(), merge=(), start_index=0, fill='auto', transpo
     if extra:
         tshape = ([time] if time else [])
         tdims = (['time'] if time else [])
-        data_vars['temp'] = xarray.DataArray(_data(tuple(tshape) + (nface,)), dims=tdims + ['nMesh2_face'])
+        zshape, zdims = ([depth] if depth else []), (['Mesh2_layers'] if depth else [])
+        data_vars['temp'] = xarray.DataArray(_data(tuple(tshape) + tuple(zshape) + (nface,)), dims=tdims + zdims + ['nMesh2_face'])
+        if depth:
+            coords['Mesh2_layers'] = xarray.DataArray(numpy.arange(depth, dtype=float) * 5.0 + 1.0, dims=['Mesh2_layers'],
+                                                      attrs={'positive': 'down', 'axis': 'Z', 'standard_name': 'depth'})
         data_vars['flipped'] = xarray.DataArray(_data((nface,) + tuple(tshape), 0.5), dims=['nMesh2_face'] + tdims)
         data_vars['node_val'] = xarray.DataArray(_data((nnode,), 0.25), dims=['nMesh2_node'])
         data_vars['count'] = xarray.DataArray(_data((nface,)).astype('int32'), dims=['nMesh2_face'])
